@@ -16,17 +16,17 @@ EXTENDS Integers, Sequences, TLC, Json, IOUtils
 Prop == IOEnv.PROP
 Tier == IOEnv.TIER           \* "quick" | "thorough"
 
-ThetaAll  == << "zero", "denormal", "tiny", "small", "below_sw", "at_sw", "above_sw", "sw_1e2",
+ThetaAll  == << "zero", "denormal", "tiny", "small", "sub_sw", "below_sw", "at_sw", "above_sw", "sw_1e2",
                 "cube_sw", "mid_lo", "mid_hi", "generic", "near_pi", "at_pi", "beyond_pi" >>
 \* rotation cells for tangents that must stay inside the injectivity radius
-ThetaIn   == << "zero", "denormal", "tiny", "small", "below_sw", "at_sw", "above_sw", "sw_1e2",
+ThetaIn   == << "zero", "denormal", "tiny", "small", "sub_sw", "below_sw", "at_sw", "above_sw", "sw_1e2",
                 "cube_sw", "mid_lo", "mid_hi", "generic", "near_pi" >>
 \* rotation cells of an element (angle 0..pi) built from coefficients
-ThetaElem == << "zero", "tiny", "small", "above_sw", "sw_1e2", "mid_lo", "mid_hi", "generic", "near_pi", "at_pi" >>
+ThetaElem == << "zero", "tiny", "small", "sub_sw", "above_sw", "sw_1e2", "mid_lo", "mid_hi", "generic", "near_pi", "at_pi" >>
 LinAll    == << "zero", "1e-8", "1e-3", "1", "1e3", "1e6" >>
 LinJ      == << "zero", "1", "1e3", "1e6" >>
 Hemis     == << "pos", "neg" >>
-Dirs      == << "generic", "axis", "par", "perp" >>
+Dirs      == << "generic", "axis", "z1", "par", "z0", "perp", "z2" >>    \* zk: the k-th linear block exactly zero
 
 GroupsD == << "SO2_d", "SE2_d", "SO3_d", "SE3_d", "SE_2_3_d", "SGal3_d", "R3_d" >>
 GroupsF == << "SO2_f", "SE2_f", "SO3_f", "SE3_f", "SE_2_3_f", "SGal3_f", "R3_f" >>
@@ -75,7 +75,7 @@ PlanOf(p) ==
     [] p = "C06" -> TangentCells({"jacs", "adjexp"}, ThetaIn, LinJ, 0) \cup Sweep({"jacs"}, 0)
                     \cup ElementCells({"adj"}, ThetaElem, LinAll, <<"generic">>, <<"1">>, 0)
     [] p = "C15" -> { Cell("interp", key, ThetaElem[i], Cyc(<<"zero", "1", "1e3">>, i + j), meth, pk, Cyc(<<"generic", "mid_hi", "generic">>, i + j), "1", v) :
-                        key \in Range(GroupsQ), i \in {1, 3, 8, 9}, j \in 1..2, v \in {0, 1},
+                        key \in Range(GroupsQ), i \in {1, 3, 9, 10}, j \in 1..2, v \in {0, 1},
                         meth \in {"SLERP", "CUBIC", "CNSMOOTH"}, pk \in {"zero", "one", "random", "dyadic", "below", "above", "nan"} }
                     \cup { Cell("phi", key, k, "-", "-", "-", "-", "-", 0) : key \in {"SE3_d", "SE3_f"}, k \in {"grid", "random"} }
     [] p = "C16" -> { Cell("avg", key, thc, linc, routine, kind, "-", "-", 0) :
